@@ -83,6 +83,19 @@ func (rc *recorder) log(ev string) {
 	rc.mu.Unlock()
 }
 
+// release gives the send bracket back if the goroutine sending r panicked between presend and sent.
+func (rc *recorder) release(r record.Record) {
+	rc.mu.Lock()
+	held := r != nil && rc.holder == r
+	if held {
+		rc.holder = nil
+	}
+	rc.mu.Unlock()
+	if held {
+		rc.sendMu.Unlock()
+	}
+}
+
 // sink receives the verif events of the database package.
 func (rc *recorder) sink(point string, args ...any) {
 	wtag := func(i int) (string, record.Record, bool) {
@@ -246,12 +259,13 @@ func runScenario(sc *scenario, descr string) []string {
 	}
 	var wg sync.WaitGroup
 	start := make(chan struct{})
-	spawn := func(tag string, f func()) {
+	spawn := func(tag string, own record.Record, f func()) {
 		wg.Add(1)
 		go func() {
 			defer wg.Done()
 			defer func() {
 				if x := recover(); x != nil {
+					rc.release(own)
 					rc.log(tag + " panic")
 				}
 			}()
@@ -262,11 +276,11 @@ func runScenario(sc *scenario, descr string) []string {
 	for i, s := range sc.subs {
 		i := i
 		if !s.pre {
-			spawn(fmt.Sprintf("a%d", i), func() { subscribe(i) })
+			spawn(fmt.Sprintf("a%d", i), nil, func() { subscribe(i) })
 		}
 		for j := 0; j < s.cancels; j++ {
 			tag := fmt.Sprintf("c%d", i*4+j)
-			spawn(tag, func() {
+			spawn(tag, nil, func() {
 				<-subscribed[i]
 				rc.log(fmt.Sprintf("%s call s%d", tag, i))
 				_ = subs[i].Cancel()
@@ -277,7 +291,7 @@ func runScenario(sc *scenario, descr string) []string {
 	for k, wr := range sc.writers {
 		k, wr := k, wr
 		tag := fmt.Sprintf("w%d", k)
-		spawn(tag, func() {
+		spawn(tag, recs[k], func() {
 			rc.log(tag + " begin")
 			if wr.push {
 				func() {
@@ -292,7 +306,7 @@ func runScenario(sc *scenario, descr string) []string {
 		})
 	}
 	if sc.hook && sc.hookCxl {
-		spawn("h0", func() {
+		spawn("h0", nil, func() {
 			rc.log("h0 hookcancel")
 			_ = hk.Cancel()
 			rc.log("h0 hookcancelled")
@@ -303,8 +317,9 @@ func runScenario(sc *scenario, descr string) []string {
 	go func() { wg.Wait(); close(done) }()
 	select {
 	case <-done:
-	case <-time.After(60 * time.Second):
+	case <-time.After(20 * time.Second):
 		rc.log("w0 hang")
+		concStats.hung = true
 	}
 	database.VerifSetSink(nil)
 	rc.mu.Lock()
@@ -341,7 +356,10 @@ func runScenario(sc *scenario, descr string) []string {
 	return lines
 }
 
-var concStats struct{ waits, timeouts, scenarios int }
+var concStats struct {
+	waits, timeouts, scenarios int
+	hung                       bool // goroutines of a hung scenario still own the global sink: no further scenarios
+}
 
 func genScenario(rng *rand.Rand, r *hxlib.Run) *scenario {
 	sc := &scenario{}
@@ -419,7 +437,7 @@ func genScenario(rng *rand.Rand, r *hxlib.Run) *scenario {
 
 func genConcurrent(r *hxlib.Run, emit func(hxlib.Case)) {
 	n := r.Budget(1500, 25000)
-	for x := 0; x < n; x++ {
+	for x := 0; x < n && !concStats.hung; x++ {
 		sc := genScenario(r.Rng, r)
 		var cd []string
 		for _, c := range sc.cons {
@@ -507,7 +525,7 @@ func monitorConc(c hxlib.Case, outs []string) (vs []hxlib.Violation) {
 			case f[2] == "panic":
 				add("C14:conc:panic", "a goroutine of the scenario panicked: "+l)
 			case f[2] == "hang":
-				add("C14:conc:hang", "the scenario did not finish within 60 s")
+				add("C14:conc:hang", "the scenario did not finish within 20 s")
 			case f[2] == "begin" && f[1][0] == 'w':
 				begin[num(f[1], 'w')] = i
 			case f[2] == "end" && f[1][0] == 'w':
